@@ -485,7 +485,7 @@ func ruleDrainImpl(c *Ctx, only []string) {
 				continue
 			}
 			c.inst(1)
-			construct := fnName(fn)
+			construct := c.P.refOwnerName(fn)
 			what := "clears " + slots[f] + " only after draining it"
 			pos := c.P.InstrPos(st)
 			if drained(c.P, st, f) {
